@@ -462,10 +462,102 @@ std::vector<operation> parse_ops(std::string const &s, bool const with_tid, std:
   return r;
 }
 
+// hammer <n> <root> <loc> <v1> <v2> <below>
+// Maximal contention on one subtree: thread 0 calls set(loc, v1), set(loc, v2), … n times; thread 1 owns a log object at
+// <loc>/<below>/x (created by main) and loads its level n times; thread 2 calls get(<loc>/<below>) n times.  Every value
+// seen must be the root level (before the first set), v1 or v2 — a transient third value inside one call (a store that is
+// not a single atomic store of the final value, a node that is momentarily unlinked …) shows up here with high probability.
+// At the end the object and get must agree with the last set.
+std::string hammer(std::vector<std::string> const &tok)
+{
+  unsigned const n = parse_small(tok[1], 1000001);
+  fcppt::log::optional_level const root{parse_level(tok[2])};
+  fcppt::log::location const loc{parse_loc(tok[3])};
+  fcppt::log::optional_level const v1{parse_level(tok[4])};
+  fcppt::log::optional_level const v2{parse_level(tok[5])};
+  fcppt::log::location below{loc};
+  if (tok[6] != "-")
+    for (std::string const &p : split(tok[6], '.'))
+      below /= parse_name(p);
+  world w;
+  w.context = std::make_unique<fcppt::log::context>(
+      root, fcppt::enum_::array_init<fcppt::log::level_stream_array>([&w](fcppt::log::level const l) {
+        return fcppt::log::level_stream{w.sinks[static_cast<std::size_t>(l)], fcppt::log::format::optional_function{}};
+      }));
+  fcppt::log::object obj{fcppt::make_ref(*w.context), below, make_params("x", "-")};
+  std::string const allowed[3] = {show_level(root), show_level(v1), show_level(v2)};
+  std::array<std::string, 3> bad{};
+  std::array<unsigned, 3> kinds{};   // how many of the three values each observer saw (bit set)
+  g_arrived.store(0, std::memory_order_relaxed);
+  g_go.store(0, std::memory_order_relaxed);
+  std::atomic<unsigned> setter_done{0}; // relaxed: the observers keep looking as long as the setter runs
+  auto const arrive = [] {
+    if (g_arrived.fetch_add(1, std::memory_order_relaxed) + 1U == 3U)
+      wake_all(g_arrived);
+    wait_until(g_go, 1U);
+  };
+  auto const classify = [&allowed](std::string const &s) -> unsigned {
+    unsigned bits = 0;
+    for (unsigned i = 0; i < 3; ++i)
+      if (s == allowed[i])
+        bits |= 1U << i;
+    return bits;
+  };
+  {
+    std::thread setter{[&] {
+      arrive();
+      for (unsigned i = 0; i < n; ++i)
+        w.context->set(loc, i % 2U == 0U ? v1 : v2);
+      setter_done.store(1, std::memory_order_relaxed);
+    }};
+    std::thread loader{[&] {
+      arrive();
+      for (unsigned i = 0; i < n || setter_done.load(std::memory_order_relaxed) == 0U; ++i)
+      {
+        std::string const s = show_level(obj.level());
+        unsigned const b = classify(s);
+        kinds[1] |= b;
+        if (b == 0 && bad[1].empty())
+          bad[1] = "object::level=" + s;
+      }
+    }};
+    std::thread getter{[&] {
+      arrive();
+      fcppt::log::context const &c = *w.context;
+      for (unsigned i = 0; i < n || setter_done.load(std::memory_order_relaxed) == 0U; ++i)
+      {
+        std::string const s = show_level(c.get(below));
+        unsigned const b = classify(s);
+        kinds[2] |= b;
+        if (b == 0 && bad[2].empty())
+          bad[2] = "context::get=" + s;
+      }
+    }};
+    wait_until(g_arrived, 3U);
+    g_go.store(1, std::memory_order_relaxed);
+    wake_all(g_go);
+    setter.join();
+    loader.join();
+    getter.join();
+  }
+  for (std::string const &b : bad)
+    if (!b.empty())
+      return "UNJUSTIFIED " + b + " allowed=" + allowed[0] + "," + allowed[1] + "," + allowed[2];
+  std::string const last = n == 0 ? allowed[0] : (n % 2U == 1U ? allowed[1] : allowed[2]);
+  fcppt::log::context const &c = *w.context;
+  if (show_level(obj.level()) != last || show_level(c.get(below)) != last)
+    return "UNJUSTIFIED final object=" + show_level(obj.level()) + " get=" + show_level(c.get(below)) + " last-set=" + last;
+  // how many different values the two observers saw (3 = before, v1 and v2: real overlap)
+  auto const count = [](unsigned b) { return (b & 1U) + ((b >> 1U) & 1U) + ((b >> 2U) & 1U); };
+  return "ok hammer seen=" + std::to_string(count(kinds[1])) + "," + std::to_string(count(kinds[2]));
+}
+
 std::string handle(std::vector<std::string> const &tok)
 {
   try
   {
+    if (tok.size() == 7 && tok[0] == "hammer")
+      return hammer(tok);
     if (tok.size() != 8 || tok[0] != "sched" || !(tok[1] == "f" || tok[1] == "r"))
       return "error:usage";
     bool const forced = tok[1] == "f";
